@@ -168,7 +168,7 @@ func GetS2(c *core.Ctx) *Set {
 		corpus := gen.Corpus(c.Tier, embeddedSchemas(c, s1))
 		if c.Tier == "thorough" {
 			// random schemas per seed (VERIF_SEED); 24 files
-			corpus = append(corpus, gen.RandomSchemas(c.Seed+1, 24)...)
+			corpus = append(corpus, gen.RandomSchemas(c.Seed+1, 64)...)
 		}
 		s.Results = ws.RunAll(corpus)
 		for _, r := range s.Results {
